@@ -2,21 +2,22 @@ CONSTANTS
   NParts = 1
   Part = 0
   NConns = 1
-  NUp = 2
-  NDown = 2
-  MaxTemp = 0
-  MaxPerm = 0
+  NUp = 0
+  NDown = 0
+  MaxTemp = 1
+  MaxPerm = 1
   Fields <-F4
-  ArgChoices <-ArgsFew
+  ArgChoices <-ArgsTiny
   WithMain = FALSE
   StdinClose = FALSE
-  Mode = "copy"
-  DialFails = FALSE
+  Mode = "socks"
+  DialFails = TRUE
   SfScripted = TRUE
-  EnvLite = FALSE
+  EnvLite = TRUE
   AsIs_Spin = FALSE
   AsIs_SharedConfig = FALSE
   Mut = "none"
-SPECIFICATION GenSpec
+SPECIFICATION Spec
 INVARIANTS TypeOK CopyLaw SocksClosedOnce SfClosedOnce ReplyLaw ConfigIsolation ConfigSeenWhenDue LoopEndsOnlyOnPerm LnClosedByLoop NoSpin NoLeak NoStuck
+PROPERTIES HandlersLeaveLoopAlone ShutdownReachesAll HandlerEnds Replied LoopEnds
 CHECK_DEADLOCK FALSE
